@@ -53,6 +53,7 @@ PINS["eigh VJP keeps the eigenvector term"] = ("C07", ["regress/C07/eigh-zero-co
 PINS["list-form einsum VJP sums the broadcast axes"] = ("C01", ["regress/C01/einsum-list-trailing-ellipsis.json"])
 PINS["einsum VJP repeats a labelled axis"] = ("C05", ["regress/C05/einsum-size-one-label.json"])
 PINS["clip VJP reduces its cotangent"] = ("C01", ["regress/C01/clip-array-bounds-broadcast.json"])
+PINS["max/min/var/std JVPs accept an axis"] = ("C02", ["regress/C02/chooser-jvp-numpy-int-axis.json"])
 PINS["FFT VJPs recognise a repeated axis"] = ("C01", ["regress/C01/fftn-repeated-axes-mixed-sign.json"])
 PINS["reshape/ravel rules resolve order"] = ("C01", ["regress/C01/ravel-order-A-fortran-input.json", "regress/C02/reshape-order-A-fortran-input.json"])
 PINS["broadcast_to VJP also sums an axis"] = ("C05", ["regress/C05/broadcast-to-empty-target.json"])
